@@ -75,6 +75,11 @@ NEXT, RET, BRK, CONT, RAISE = "next", "return", "break", "continue", "raise"
 
 class Engine:
     def __init__(self, fn: extract.Extracted, contract, registry, prop_prefix=""):
+        if getattr(contract, "body_params", None):
+            # the body is verified with its own parameter typing (call sites keep the call-site typing of `params`)
+            import copy as _copy
+            contract = _copy.copy(contract)
+            contract.params = contract.body_params
         self.fn, self.c, self.reg = fn, contract, registry
         self.obls: list[Obl] = []
         self.prefix = prop_prefix + contract.short
@@ -312,6 +317,20 @@ class Engine:
             st.assume(c)
         return [(NEXT, st, None)]
 
+    def s_With(self, s, st):
+        """with <expr> as <name>: body   -- only for context managers with an assumed model (registry hook `with_enter`):
+        entering binds the managed value, leaving does nothing observable"""
+        if len(s.items) != 1:
+            raise OutOfSubset("with-statement with several items")
+        it = s.items[0]
+        cm = self.ev(it.context_expr, st)
+        v = self.reg._hook("with_enter", self, st, cm, s)
+        if v is None:
+            raise OutOfSubset(f"with-statement over {cm.ty}")
+        if it.optional_vars is not None:
+            self.assign(it.optional_vars, v, st)
+        return self.block(s.body, st)
+
     def s_Break(self, s, st):
         return [(BRK, st, None)]
 
@@ -484,6 +503,8 @@ class Engine:
                     b = b.value
                 if isinstance(b, ast.Name) and n.func.attr in _MUTATORS:
                     names.add(b.id)
+            elif isinstance(n, ast.Call) and isinstance(n.func, ast.Name) and getattr(dict(self.c.params).get(n.func.id), "callback", False):
+                names.update({n.func.id + "__args", n.func.id + "__rets"})      # ghost logs of a callback parameter
             elif isinstance(n, ast.Call) and isinstance(n.func, ast.Name):
                 # calls to contracts that modify an argument
                 cc = self.reg.lookup_function(n.func.id)
@@ -1307,6 +1328,43 @@ class _PyTuple(Val):
         self.items = items
         self.ty = THelper("pytuple")
         self.t = None
+
+
+class _Callback(Val):
+    """A callable PARAMETER (e.g. on_solution): an unknown function.  Every call appends its argument to the ghost log
+    `<name>.args` and returns an arbitrary Boolean which is appended to the ghost log `<name>.rets`; the contract of the
+    function under verification speaks about these logs (which arguments, in which order, stopping after the first False)."""
+
+    def __init__(self, name, arg_ty):
+        self.name, self.arg_ty = name, arg_ty
+        self.ty = THelper("callback")
+        self.t = None
+
+    def call(self, eng, st, args, node):
+        if len(args) != 1:
+            raise OutOfSubset("callback with several arguments")
+        lt, bt = TList(self.arg_ty), TList(TBool)
+        a = eng.coerce(args[0], self.arg_ty, st)
+        la, lr = st.env[self.name + "__args"].t, st.env[self.name + "__rets"].t     # ghost logs live in the environment (havocked by loops)
+        r = z3.Bool(fresh_name(self.name + ".ret"))
+        n = lt.len(la)
+        st.env[self.name + "__args"] = Val(lt, lt.mk(n + 1, z3.Store(lt.at(la), n, a.t)))
+        st.env[self.name + "__rets"] = Val(bt, bt.mk(n + 1, z3.Store(bt.at(lr), n, r)))
+        return vbool(r)
+
+    @staticmethod
+    def param(arg_ty):
+        """parameter declaration for contracts: binds the callback and its two empty ghost logs"""
+        from .contract import CustomParam
+
+        def make(eng, st, name):
+            lt, bt = TList(arg_ty), TList(TBool)
+            st.env[name + "__args"] = lt.empty()
+            st.env[name + "__rets"] = bt.empty()
+            return _Callback(name, arg_ty)
+        p = CustomParam(make)
+        p.callback = True
+        return p
 
 
 class _PyRecord(Val):
